@@ -466,6 +466,7 @@ func ruleFactoryFailsClosed(c *Ctx) {
 func ruleSDPFormatGuarded(c *Ctx) {
 	p := c.P
 	n := 0
+	ord := map[*ssa.Function]int{}
 	for _, rel := range []string{"service/rtsp", "service/wsp"} {
 		for _, fn := range p.FuncsInPkg(rel) {
 			instrs(fn, func(ins ssa.Instruction) {
@@ -478,6 +479,7 @@ func ruleSDPFormatGuarded(c *Ctx) {
 					return
 				}
 				n++
+				ord[fn]++
 				c.touched(fname(fn))
 				// dominated by len(x.Format) > 0 (or != 0) on the same media value
 				guarded := false
@@ -507,7 +509,7 @@ func ruleSDPFormatGuarded(c *Ctx) {
 						guarded = true
 					}
 				}
-				c.Decide(guarded, "sdp-format:"+fname(fn)+"#"+p.InstrPos(ins), p.InstrPos(ins), "first format read only when the list is non-empty", "media.Format[0] is read without a length test: an SDP media line without formats (`m=video 0 udp x`) from a publisher or a pulled camera panics here")
+				c.Decide(guarded, fmt.Sprintf("sdp-format:%s#%d", fname(fn), ord[fn]), p.InstrPos(ins), "first format read only when the list is non-empty", "media.Format[0] is read without a length test: an SDP media line without formats (`m=video 0 udp x`) from a publisher or a pulled camera panics here")
 			})
 		}
 	}
